@@ -611,7 +611,17 @@ func (l *IPFSLog) Join(otherLog iface.IPFSLog, size int) (iface.IPFSLog, error) 
 		}
 	}
 
-	mergedHeads := entry.FindHeads(l.heads.Merge(otherHeads))
+	// Only our own entry objects take part in the head computation: every head
+	// of the other log is in our entries by now, and the objects handed in for
+	// entries we already had were not verified
+	ownOtherHeads := entry.NewOrderedMap()
+	for _, k := range otherHeads.Keys() {
+		if own, ok := l.Entries.Get(k); ok {
+			ownOtherHeads.Set(k, own)
+		}
+	}
+
+	mergedHeads := entry.FindHeads(l.heads.Merge(ownOtherHeads))
 
 	for idx, e := range mergedHeads {
 		// notReferencedByNewItems
@@ -625,20 +635,7 @@ func (l *IPFSLog) Join(otherLog iface.IPFSLog, size int) (iface.IPFSLog, error) 
 		}
 	}
 
-	// Keep our own entry objects as heads: the ones handed in by the other log
-	// for entries we already had were not verified
-	ownHeads := make([]iface.IPFSLogEntry, 0, len(mergedHeads))
-	for _, e := range mergedHeads {
-		if e == nil {
-			continue
-		}
-
-		if own, ok := l.Entries.Get(e.GetHash().String()); ok {
-			ownHeads = append(ownHeads, own)
-		}
-	}
-
-	l.heads = entry.NewOrderedMapFromEntries(ownHeads)
+	l.heads = entry.NewOrderedMapFromEntries(mergedHeads)
 
 	if size > -1 {
 		tmp := l.values().Slice()
